@@ -15,7 +15,7 @@ RULE = ("terrains 2x2..12x12 (thorough: up to 20x20) over classes {small integer
         "observers otherwise; observer_elev in {0, +, -}, target_elev >= 0; square and non-square cells, descending y; oracle = "
         "O(n^2) evaluation of the line-of-sight model under its strictest and most lenient reading (a cell is judged only when "
         "both agree); non-trivial = distinct (terrain, observer, heights, cell size) with relief and >= 1 invisible cell")
-BUDGET = {'quick': 140, 'thorough': 1200}
+BUDGET = {'quick': 280, 'thorough': 1200}
 MODES = {'quick': [('J', 5), ('I', 11)], 'thorough': [('J', 6), ('I', 10)]}
 FLOORS = {'quick': {'visibility.cells_judged': 20000, 'has_invisible_cell': 300, 'observer.corner': 60, 'observer.edge': 100,
                     'vertical_angle': 400, 'cx!=cy': 120, 'modeI.tree.rotations': 200, 'modeI.tree.deletes': 2000, 'compiled_mode_cases': 60,
